@@ -253,6 +253,19 @@ def _shape_of_origin(fx, fn, o, depth):
             return label_shape(fx, fn, t["args"][0], depth + 1)
         if o[2]:
             return [("field", n, tuple(o[2]))]
+        # a helper of the workspace that builds the text: its result's shape, with its parameters replaced by the arguments here
+        k2 = t.get("resolved_key") or (t.get("callee_key") if not t.get("callee_trait") else None)
+        if k2 in fx.fns and fx.fns[k2]["crate"] in fx.crates and depth < 4 and "{closure" not in k2 and len(fx.fns[k2]["blocks"]) < 60:
+            hfn = Fn(fx.fns[k2])
+            inner = label_shape(fx, hfn, {"k": "copy", "pl": {"l": 0, "p": []}}, depth + 2)
+            if inner and all(p[0] != "other" for p in inner):
+                out = []
+                for p in inner:
+                    if p[0] == "param" and p[1] - 1 < len(t["args"]):
+                        out.extend(label_shape(fx, fn, t["args"][p[1] - 1], depth + 1))
+                    else:
+                        out.append(p)
+                return out
         return [("call", n)]
     if o[0] == "agg":
         return [("other", "agg")]
